@@ -464,6 +464,15 @@ def r11(ctx, prog):
         raise AnalysisBroken('expected the read-zero and read-error registrations leading to onSocketClosed, found %d' % n)
 
 
+def r16(ctx, prog):
+    from tbxlint import shared
+    classes = [N + c for c in ('BufferedFd', 'TcpConnection', 'TcpServer', 'TcpClient', 'TcpConnector', 'TcpAcceptor')] + ['tbox::util::Buffer']
+    shared.rule(ctx, prog, 'C06.R16', 'A6 no state shared between descriptors behind their back: no method of BufferedFd, TcpConnection, TcpServer, TcpClient, TcpConnector, TcpAcceptor or '
+                'util::Buffer keeps a mutable function-local static (a scratch area, a counter), and the classes have no mutable static data member or file-scope variable: two '
+                'descriptors served by loops in different threads would read and write it at the same time and see each other\'s bytes', classes,
+                ['network/buffered_fd.cpp', 'network/tcp_connection.cpp', 'network/tcp_server.cpp', 'network/tcp_client.cpp', 'util/buffer.cpp'], {}, 20)
+
+
 def run(ctx):
     prog = extract('ALL' if ctx.tier == 'thorough' else SCOPE)
     ctx.guard(r1, ctx, prog)
@@ -477,6 +486,7 @@ def run(ctx):
     ctx.guard(C06_relay.r13, ctx, prog)
     ctx.guard(C06_relay.r14, ctx, prog)
     ctx.guard(C06_replay.r15, ctx, prog)
+    ctx.guard(r16, ctx, prog)
     # the send queue and the receive buffer are util::Buffer objects: the byte stream is only in order / lossless if the buffer's
     # window arithmetic is right, so the Buffer rules of C07 are part of this check as well (ids C06.B1..B4)
     from rules import C07
